@@ -27,8 +27,10 @@ layout gives the same answer.
 Spec verdicts (evaluated on the implementation's reply):
 `bad:panic`, `bad:dbinv-<clause>@B`, `bad:frag-multiset@B` (stored fragments are not a permutation of the
 generated ions), `bad:scan-missing@B,q` / `bad:scan-extra@B,q` (result ≠ linear scan of the stored
-fragments with the implementation's own windows), `bad:lookup_depends_on_history@B,q` (`pageseq`: the answer through the shared query object differs from the
+fragments with the window computed from the request by the model), `bad:lookup_depends_on_history@B,q` (`pageseq`: the answer through the shared query object differs from the
 answer through a fresh one — the lookup depends on what was looked up before), `bad:bucket-dependence@q` (two bucket sizes, different answers);
+`bad:window_ne_definition@B,q` (the bounds reported by the real `Tolerance::bounds` are not bit-identical to the
+model's `window` computed from the request; the scans are always made with the request-derived window);
 for `bss`: `bad:range`, `bad:covers`, `bad:tight`, `bad:exit`.
 -/
 namespace Sage.C03
@@ -216,7 +218,11 @@ def handlePage (seq : Bool) (args impl : List String) : Option Reply := do
         if c != "" then some s!"dbinv-{c}@B={B}" else
         if sortPairs (br.frags.map pairOf) != ionsSorted then some s!"frag-multiset@B={B}" else
         ((List.range br.res.length).zip br.res).findSome? fun (qi, qr) =>
-          match qOfBits qr.win with
+          -- the window is judged too: it is recomputed from the REQUEST by the model's `window`
+          -- (`Tol.bounds`, the subject of Props/C03Tol) at Float32, operation by operation as coded
+          -- (`mz * z`, `lo / z`, `(c * lo) / 1e6`, `c + delta`), and the scan below uses THAT window, so
+          -- "none missing" and "none extra" are relative to the definition, not to what the code reported
+          match wins[qi]?.join with
           | none => some s!"window@B={B},q={qi}"
           | some w =>
             -- a lookup through the shared query object must equal the same lookup through a fresh one
@@ -227,6 +233,7 @@ def handlePage (seq : Bool) (args impl : List String) : Option Reply := do
             if d.1 != 0 then some s!"scan-missing@B={B},q={qi}"
             else if d.2 != 0 then some s!"scan-extra@B={B},q={qi}"
             else if sortPairs qr.res != qr.res then some s!"unsorted-reply@B={B},q={qi}"
+            else if qr.win != winBits w then some s!"window_ne_definition@B={B},q={qi}"
             else none) ++
       [fun (_ : Unit) =>
         match im.per with
